@@ -1,10 +1,10 @@
 ---- MODULE MCGooseCmd ----
 EXTENDS GooseCmd
-MCPkgs == {"good", "goodffi", "partial", "allbad", "tagged", "nested", "latebad", "earlybad"}
+MCPkgs == {"good", "goodffi", "partial", "allbad", "tagged", "nested", "latebad", "earlybad", "cgotag"}
 MCClass == [p \in MCPkgs |-> CASE p = "partial" -> "partial" [] p = "earlybad" -> "partial" [] p = "allbad" -> "allbad" [] p = "latebad" -> "late-bad" [] OTHER -> "good"]
 MCPatterns == {<<"good">>, <<"partial">>, <<"allbad">>, <<"partial", "good">>, <<"allbad", "goodffi">>, <<"good", "partial">>,
-               <<"goodffi">>, <<"tagged", "nested">>, <<"earlybad">>, <<"earlybad", "good">>, <<"nested", "earlybad">>, <<"latebad">>, <<"latebad", "good">>, <<"goodffi", "latebad", "nested">>,
-               <<"allbad", "earlybad", "good", "goodffi", "latebad", "nested", "partial", "tagged">>}
+               <<"goodffi">>, <<"tagged", "nested">>, <<"earlybad">>, <<"earlybad", "good">>, <<"nested", "earlybad">>, <<"cgotag", "good", "nested">>, <<"cgotag", "earlybad", "good", "goodffi", "tagged">>, <<"latebad">>, <<"latebad", "good">>, <<"goodffi", "latebad", "nested">>,
+               <<"allbad", "cgotag", "earlybad", "good", "goodffi", "latebad", "nested", "partial", "tagged">>}
 SmallPkgs == {"good", "partial", "latebad"}
 SmallClass == [p \in SmallPkgs |-> CASE p = "partial" -> "partial" [] p = "latebad" -> "late-bad" [] OTHER -> "good"]
 SmallPatterns == {<<"good">>, <<"partial">>, <<"partial", "good">>, <<"latebad">>, <<"latebad", "good", "partial">>}
